@@ -381,6 +381,42 @@ pub fn run(ctx: &Ctx) -> i32 {
             }
         }
     }
+    // several threads inside parse() / compile() at once, each with its own text: the answers
+    // must be the ones each text gets alone (sampled schedules; labelled so in the evidence)
+    {
+        let texts: Vec<String> = [
+            "-name a -threads 7 -print",
+            "-true -depth -name b",
+            "-uid 5 -o -name c -threads 3 -fprint f",
+            "-name core -print",
+            "-nouser -a -name x -size +1k -print",
+            "-name x -regex x -print0",
+            "-amin +5x",
+            "-name aaaaaaaaaaaaaaaaaaaaaaaaaaaaaaaaaaaaaaaaaaaaaaaaaaaaaaaaaaaaaa -o -uid oops",
+            "-printf '%p %z\\n'",
+            "( -type f -size +1M -fprint big ) , ( -perm -u+x -fprint0 exe )",
+            "-mmin -5 -user bob",
+            "-mtime -7 -name '*.log' -printf '%p\\n'",
+            "",
+            "( ( -name a )",
+            "-perm u+x,g-w -links +2",
+            "-depth -depth -threads 2 -threads 9",
+        ]
+        .iter()
+        .map(|s| s.to_string())
+        .collect();
+        let rounds = ctx.tier.pick(1500, 20000);
+        acc.states += (texts.len() * rounds) as u64;
+        acc.transitions += (texts.len() * rounds) as u64;
+        acc.count("concurrent_calls_sampled", (texts.len() * rounds) as u64);
+        for (k, r, want, got) in crate::subject::concurrent_calls(&texts, rounds) {
+            acc.violate(Violation::new(
+                "C15:answer-differs-when-other-threads-call-the-library",
+                format!("{} threads parse and compile their own texts at once; thread {k} ({:?}) got in round {r}:\n{}\n-- alone it gets --\n{}", texts.len(), short(&texts[k]), got.chars().take(600).collect::<String>(), want.chars().take(600).collect::<String>()),
+                json!({"kind": "concurrent-calls"}),
+            ));
+        }
+    }
     // fresh processes
     let nproc = ctx.tier.pick(8, 64);
     let mut dumps: Vec<String> = vec![];
